@@ -21,7 +21,8 @@ What is proved here (`hall` = every step of `batchChecks` holds, which both entr
   have the width the common data declares, trace openings have the AIR's width (next row only
   when the AIR opens it), the lookup terminal is present iff the AIR declares interactions, the
   quotient opening is exactly `2^logQd` chunks of `dim` coefficients, the flattened permutation
-  openings (local and next) have exactly `aux_width * dim` entries.
+  openings (local and next) have exactly `aux_width * dim` entries, `degree_bits + logQd` is below
+  the word size and at most the field's bit width.
 * `batch_ok_lookup_commit` — accepted ⇒ a permutation commitment is present iff some instance has
   lookups.
 * `batch_ok_prep` — accepted ⇒ matrix `j` of the preprocessed commitment belongs to an in-range
@@ -31,11 +32,15 @@ What is proved here (`hall` = every step of `batchChecks` holds, which both entr
   path) and every query opens exactly one batch per commitment round of `batchRounds`.
 * `batch_ok_zips` — accepted ⇒ both sides of every zip named in `batchZips` have equal length
   (no zip of the batch builder can truncate silently on an accepted shape).
-* `batch_no_panic_partial`, `batchPanicGuards_necessary` — no panic under the decidable guard
-  hypothesis `BatchPanicGuards`; what the hypothesis contains (AIR evaluations go through, every
-  `degree_bits` entry and `degree_bits + logQd` in shift / two-adicity range, FRI arithmetic,
-  `log_arity` allocation bounds, caps non-empty powers of two). Each is shown necessary by a
-  witness in `Witness/C15Batch.lean`.
+* `batch_no_panic_partial`, `batchPanicGuards_necessary`, `batchPanicGuards_iff`, `batch_no_panic`,
+  `batchChecks_partial_steps` — no panic under the decidable guard hypothesis `BatchPanicGuards`,
+  which is *exactly*: the AIR evaluations go through, the shift by the AIR's own `log_qd` is in
+  range, every `degree_bits` entry and `degree_bits + logQd` is at most the two-adicity, the
+  schedule sum fits a word. (Before the repairs ca07f07 / fc0321f / 069da9d / c030fca it also
+  contained the shifts by `degree_bits`, the `log_arity` shift / product / allocation bounds, caps
+  non-empty powers of two, `log_max_height ≤ two-adicity`: those are errors now, for every shape —
+  `batch_degree_out_of_range_err`, and the FRI theorems of `Props/C15.lean`, which are about the
+  same step lists.) Each remaining one is shown necessary by a witness in `Witness/C15Batch.lean`.
 * `batch_malformed_rejected_partial` — under the guards, a shape violating any validated
   component is rejected with an error.
 * `p3_ok_verifyBatch`, `p3_ok_meta` — `verify_p3_batch_proof_circuit`: accepted ⇒ the table
@@ -82,7 +87,11 @@ theorem mem_count {e : BatchEnv} {s : BatchShape} {c : Check} (h : c ∈ batchCo
 theorem mem_inst {e : BatchEnv} {s : BatchShape} {c : Check} {i : Nat} (hi : i < e.airs.length)
     (h : c ∈ instChecks e s i) : c ∈ batchChecks e s := by
   apply mem_prefix; simp only [batchPrefix, List.mem_append, List.mem_flatMap, List.mem_range]
-  exact Or.inl (Or.inl (Or.inl (Or.inl (Or.inl (Or.inl (Or.inl (Or.inr ⟨i, hi, h⟩)))))))
+  exact Or.inl (Or.inl (Or.inl (Or.inl (Or.inl (Or.inl (Or.inl (Or.inl (Or.inr ⟨i, hi, h⟩))))))))
+
+theorem mem_degreeRange {e : BatchEnv} {s : BatchShape} {c : Check} (h : c ∈ degreeRangeChecks e s) :
+    c ∈ batchChecks e s := by
+  apply mem_prefix; simp only [batchPrefix, List.mem_append]; simp [h]
 
 theorem mem_lookupCommit {e : BatchEnv} {s : BatchShape} :
     must (s.isLookup == s.lookups.any (· != 0)) ∈ batchChecks e s := by
@@ -180,6 +189,8 @@ structure InstValidated (e : BatchEnv) (s : BatchShape) (i : Nat) : Prop where
   chunks : (s.inst i).quotientChunks = List.replicate (2 ^ e.lq i) e.base.dim
   permLocal : (s.inst i).permLocal = s.auxWidth i * e.base.dim
   permNext : (s.inst i).permNext = s.auxWidth i * e.base.dim
+  /-- fix ca07f07: the instance's quotient domain fits a machine word and the field's bit width -/
+  degree : s.db i + e.lq i < e.base.wordBits ∧ s.db i + e.lq i ≤ e.base.valBits
 
 private theorem all_beq_replicate (l : List Nat) (d : Nat) (h : l.all (· == d) = true) :
     l = List.replicate l.length d := by
@@ -217,9 +228,14 @@ theorem batch_ok_instance (e : BatchEnv) (s : BatchShape) (hall : AllHold e s)
     simp only [batchPost, List.mem_flatMap, List.mem_range]
     exact ⟨i, hi, by simp⟩) :
     must ((s.inst i).permNext == s.auxWidth i * e.base.dim) ∈ batchChecks e s)
+  have h10 := must_true hall (mem_degreeRange (by
+    simp only [degreeRangeChecks, List.mem_map, List.mem_range]
+    exact ⟨i, hi, rfl⟩) :
+    must (decide (s.db i + e.lq i < e.base.wordBits) && decide (s.db i + e.lq i ≤ e.base.valBits))
+      ∈ batchChecks e s)
   simp only [Bool.and_eq_true, beq_iff_eq] at h1 h2 h4 h6 h8 h9
   simp only [partialStep] at h3 h5
-  refine ⟨h1.1, h1.2, h2.1, h2.2, ?_, ?_, ?_, h8, h9⟩
+  refine ⟨h1.1, h1.2, h2.1, h2.2, ?_, ?_, ?_, h8, h9, by simpa using h10⟩
   · cases hd : (e.air i).declares with
     | none => simp [hd] at h3
     | some b => simp [hd] at h4; simp [h4]
@@ -305,28 +321,37 @@ theorem batch_ok_fri_validated (e : BatchEnv) (s : BatchShape) (hall : AllHold e
     must (s.fri.logArities.all (· != 0)) ∈ friVerifyChecks e.base s.fri (batchRounds e s))
   have g3 := key _ (by simp [friVerifyChecks] :
     must (s.fri.queries.length != 0) ∈ friVerifyChecks e.base s.fri (batchRounds e s))
-  have g4 := key _ (by simp [friVerifyChecks] :
-    must (s.fri.commitCaps.length != 0) ∈ friVerifyChecks e.base s.fri (batchRounds e s))
   have g5 := key _ (by simp [friVerifyChecks] :
     must (isPow2 s.fri.finalPolyLen && log2 s.fri.finalPolyLen == e.base.logFinalPolyLen)
       ∈ friVerifyChecks e.base s.fri (batchRounds e s))
   have g6 := key _ (by simp [friVerifyChecks] :
     must (decide (logMaxHeight e.base s.fri ≤ e.base.valBits)) ∈ friVerifyChecks e.base s.fri (batchRounds e s))
+  have g7 := key _ (by simp [friVerifyChecks] :
+    must (decide (logMaxHeight e.base s.fri ≤ e.base.twoAdicity)) ∈ friVerifyChecks e.base s.fri (batchRounds e s))
   have g5' : s.fri.finalPolyLen = 2 ^ e.base.logFinalPolyLen := by
     simp only [isPow2, Bool.and_eq_true, bne_iff_ne, ne_eq, beq_iff_eq] at g5
     rw [← g5.2, g5.1.2]
-  refine ⟨⟨by simpa using g1, by simpa using g2, ?_, ?_, ?_, ?_, g5', by simpa using g6⟩, ?_⟩
+  have qmem : ∀ q ∈ s.fri.queries, ∀ c ∈ queryScheduleChecks e.base s.fri.logArities q,
+      c ∈ friVerifyChecks e.base s.fri (batchRounds e s) := by
+    intro q hq c hc
+    simp only [friVerifyChecks, List.mem_append, List.mem_flatMap]
+    exact Or.inl (Or.inl (Or.inr ⟨q, hq, hc⟩))
+  refine ⟨⟨by simpa using g1, by simpa using g2, ?_, ?_, ?_, ?_, g5', by simpa using g6,
+    by simpa using g7⟩, ?_⟩
   · intro la hla
     have := (List.all_eq_true.mp g2') la hla
     simp only [bne_iff_ne, ne_eq] at this
     omega
-  · intro hn; simp [hn] at g4
   · intro hn; simp [hn] at g3
   · intro q hq
-    have := key (q.steps == s.fri.logArities) (by
-      simp only [friVerifyChecks, List.mem_append, List.mem_map]
-      exact Or.inl (Or.inl (Or.inr ⟨q, hq, rfl⟩)))
+    have := key (q.steps == s.fri.logArities) (qmem q hq _ (by simp [queryScheduleChecks]))
     simpa using this
+  · intro q hq i hi
+    have := key (siblingOk e.base (s.fri.logArities.getD i 0) (q.siblings.getD i 0)) (qmem q hq _ (by
+      simp only [queryScheduleChecks, List.mem_cons, List.mem_map, List.mem_range]
+      exact Or.inr ⟨i, hi, rfl⟩))
+    simp only [siblingOk, Bool.and_eq_true, decide_eq_true_eq, beq_iff_eq] at this
+    exact ⟨this.1, this.2.2⟩
   · intro q hq
     have := key ((batchRounds e s).length == q.inputProof.length) (by
       simp only [friVerifyChecks, openInputChecks, List.mem_append, List.mem_flatMap]
@@ -371,17 +396,17 @@ theorem batch_no_panic_partial (e : BatchEnv) (s : BatchShape) (h : BatchPanicGu
   have := (List.all_eq_true.mp h) c hc
   simpa [hk] using this
 
-/-- What `BatchPanicGuards` contains for the STARK layer of the batch builder. (The FRI / MMCS
-content is the one spelled out by `C15.panicGuards_necessary` for the uni path: the same step
-lists.) -/
+/-- What `BatchPanicGuards` contains: the AIR evaluations go through (F9m when they do not), the
+shift by the AIR's own `log_qd` is in range, every `degree_bits` entry and every `degree_bits +
+log_qd` is at most the two-adicity (rest of F9a), and the unchecked sum of the schedule fits a
+word. Since ca07f07 / fc0321f / 069da9d / c030fca the shifts by `degree_bits`, everything about
+`log_arity`, the caps and `log_max_height ≤ two-adicity` are no longer among them;
+`batchPanicGuards_iff` shows that nothing else is. -/
 theorem batchPanicGuards_necessary (e : BatchEnv) (s : BatchShape) (h : BatchPanicGuards e s = true) :
     (∀ i < e.airs.length, ((e.air i).declares.isSome ∧ (e.air i).logQd.isSome ∧ e.lq i < e.base.wordBits) ∧
-      s.db i + e.lq i < e.base.wordBits ∧ s.db i + e.lq i ≤ e.base.twoAdicity) ∧
-    (∀ db ∈ s.degreeBits, db < e.base.wordBits ∧ db ≤ e.base.twoAdicity) ∧
-    sum s.fri.logArities < 2 ^ e.base.wordBits ∧ logMaxHeight e.base s.fri ≤ e.base.twoAdicity ∧
-    (∀ q ∈ s.fri.queries, ∀ la ∈ q.steps,
-      la < e.base.wordBits ∧ (2 ^ la - 1) * e.base.dim < 2 ^ e.base.wordBits
-        ∧ (2 ^ la - 1) * e.base.dim ≤ e.base.maxAlloc) := by
+      s.db i + e.lq i ≤ e.base.twoAdicity) ∧
+    (∀ db ∈ s.degreeBits, db ≤ e.base.twoAdicity) ∧
+    sum s.fri.logArities < 2 ^ e.base.wordBits := by
   have hall := List.all_eq_true.mp h
   have key : ∀ b : Bool, partialStep b ∈ verifyBatchChecks e s → b = true := by
     intro b hb
@@ -389,7 +414,7 @@ theorem batchPanicGuards_necessary (e : BatchEnv) (s : BatchShape) (h : BatchPan
     simpa [partialStep] using this
   have keyB : ∀ b : Bool, partialStep b ∈ batchChecks e s → b = true :=
     fun b hb => key b (mem_verifyBatch hb)
-  refine ⟨?_, ?_, ?_, ?_, ?_⟩
+  refine ⟨?_, ?_, ?_⟩
   · intro i hi
     have a1 := keyB _ (mem_inst hi (by simp [instChecks]) :
       partialStep (e.air i).declares.isSome ∈ batchChecks e s)
@@ -397,43 +422,168 @@ theorem batchPanicGuards_necessary (e : BatchEnv) (s : BatchShape) (h : BatchPan
       partialStep (e.air i).logQd.isSome ∈ batchChecks e s)
     have a3 := keyB _ (mem_inst hi (by simp [instChecks]) :
       partialStep (decide (e.lq i < e.base.wordBits)) ∈ batchChecks e s)
-    have a4 := keyB _ (mem_qdomain (by
-      simp only [quotientDomainChecks, List.mem_flatMap, List.mem_range]
-      exact ⟨i, hi, by simp⟩) :
-      partialStep (decide (s.db i + e.lq i < e.base.wordBits)) ∈ batchChecks e s)
     have a5 := keyB _ (mem_qdomain (by
-      simp only [quotientDomainChecks, List.mem_flatMap, List.mem_range]
-      exact ⟨i, hi, by simp⟩) :
+      simp only [quotientDomainChecks, List.mem_map, List.mem_range]
+      exact ⟨i, hi, rfl⟩) :
       partialStep (decide (s.db i + e.lq i ≤ e.base.twoAdicity)) ∈ batchChecks e s)
-    exact ⟨⟨a1, a2, by simpa using a3⟩, by simpa using a4, by simpa using a5⟩
+    exact ⟨⟨a1, a2, by simpa using a3⟩, by simpa using a5⟩
   · intro db hdb
-    have a1 := keyB _ (mem_domain (by
-      simp only [domainChecks, List.mem_flatMap]
-      exact ⟨db, hdb, by simp⟩) : partialStep (decide (db < e.base.wordBits)) ∈ batchChecks e s)
     have a2 := keyB _ (mem_domain (by
-      simp only [domainChecks, List.mem_flatMap]
-      exact ⟨db, hdb, by simp⟩) : partialStep (decide (db ≤ e.base.twoAdicity)) ∈ batchChecks e s)
-    exact ⟨by simpa using a1, by simpa using a2⟩
+      simp only [domainChecks, List.mem_map]
+      exact ⟨db, hdb, rfl⟩) : partialStep (decide (db ≤ e.base.twoAdicity)) ∈ batchChecks e s)
+    simpa using a2
   · have := keyB _ (mem_fri (by simp [friVerifyChecks]) :
       partialStep (decide (sum s.fri.logArities < 2 ^ e.base.wordBits)) ∈ batchChecks e s)
     simpa using this
-  · have := keyB _ (mem_fri (by simp [friVerifyChecks]) :
-      partialStep (decide (logMaxHeight e.base s.fri ≤ e.base.twoAdicity)) ∈ batchChecks e s)
-    simpa using this
-  · intro q hq la hla
-    have mem : ∀ c ∈ allocStep e.base la, c ∈ verifyBatchChecks e s := by
-      intro c hc
-      simp only [verifyBatchChecks, allocFri, List.mem_append, List.mem_flatMap]
-      exact Or.inl (Or.inr ⟨q, hq, la, hla, hc⟩)
-    refine ⟨?_, ?_, ?_⟩
-    · have := key _ (mem (partialStep (decide (la < e.base.wordBits))) (by simp [allocStep]))
-      simpa using this
-    · have := key _ (mem (partialStep (decide ((2 ^ la - 1) * e.base.dim < 2 ^ e.base.wordBits)))
-        (by simp [allocStep]))
-      simpa using this
-    · have := key _ (mem (partialStep (decide ((2 ^ la - 1) * e.base.dim ≤ e.base.maxAlloc)))
-        (by simp [allocStep]))
-      simpa using this
+
+/-! ## Exactly which steps can still panic (after ca07f07, fc0321f, 069da9d, c030fca) -/
+
+theorem batchCountChecks_allErr (e : BatchEnv) (s : BatchShape) : AllErr (batchCountChecks e s) := by
+  intro c hc
+  simp only [batchCountChecks, List.mem_append, List.mem_cons, List.not_mem_nil, or_false] at hc
+  rcases hc with ((rfl | rfl | rfl) | hc) | rfl
+  · rfl
+  · rfl
+  · rfl
+  · cases hg : s.prep with
+    | none => simp [hg] at hc
+    | some g =>
+      simp only [hg, List.mem_cons, List.not_mem_nil, or_false] at hc
+      rcases hc with rfl | rfl <;> rfl
+  · rfl
+
+theorem prepRoundChecks_allErr (s : BatchShape) : AllErr (prepRoundChecks s) := by
+  intro c hc
+  cases hg : s.prep with
+  | none => simp [prepRoundChecks, hg] at hc
+  | some g =>
+    simp only [prepRoundChecks, hg, List.mem_flatMap, List.mem_range, List.mem_cons,
+      List.not_mem_nil, or_false] at hc
+    obtain ⟨j, _, hc⟩ := hc
+    rcases hc with rfl | rfl | rfl | rfl | rfl <;> rfl
+
+theorem permRoundChecks_allErr (e : BatchEnv) (s : BatchShape) : AllErr (permRoundChecks e s) := by
+  intro c hc
+  by_cases hl : s.isLookup = true
+  · simp only [permRoundChecks, hl, if_true, List.mem_map] at hc
+    obtain ⟨i, _, rfl⟩ := hc; rfl
+  · simp [permRoundChecks, hl] at hc
+
+theorem batchPost_allErr (e : BatchEnv) (s : BatchShape) : AllErr (batchPost e s) := by
+  intro c hc
+  simp only [batchPost, List.mem_flatMap, List.mem_cons, List.not_mem_nil, or_false] at hc
+  obtain ⟨i, _, rfl | rfl⟩ := hc <;> rfl
+
+theorem friChallengeChecks_allErr (e : Env) (f : FriShape) : AllErr (friChallengeChecks e f) := by
+  intro c hc
+  simp only [friChallengeChecks, List.mem_cons, List.not_mem_nil, or_false] at hc
+  rcases hc with rfl | rfl <;> rfl
+
+/-- Every partial step of the batch builder, listed: the AIR's two symbolic evaluations and the
+shift by its own `log_qd` (per instance), the two domain constructors, and the unchecked schedule
+sum. Everything else — all counts, the `degree_bits` range test, the rounds, the whole FRI + MMCS
+part, the permutation openings — is an explicit error return. -/
+theorem batchChecks_partial_steps (e : BatchEnv) (s : BatchShape) :
+    ∀ c ∈ batchChecks e s, c.kind = .panic →
+      (∃ i < e.airs.length, c = partialStep (e.air i).declares.isSome ∨
+        c = partialStep (e.air i).logQd.isSome ∨ c = partialStep (decide (e.lq i < e.base.wordBits)) ∨
+        c = partialStep (decide (s.db i + e.lq i ≤ e.base.twoAdicity))) ∨
+      (∃ db ∈ s.degreeBits, c = partialStep (decide (db ≤ e.base.twoAdicity))) ∨
+      c = partialStep (decide (sum s.fri.logArities < 2 ^ e.base.wordBits)) := by
+  intro c hc hk
+  have no : ∀ {cs : List Check}, AllErr cs → c ∈ cs → False := by
+    intro cs h hm; rw [h c hm] at hk; cases hk
+  simp only [batchChecks, batchPrefix, List.mem_append] at hc
+  rcases hc with (((((((((((hc | hc) | hc) | hc) | hc) | hc) | hc) | hc) | hc) | hc) | hc) | hc)
+  · exact (no (batchCountChecks_allErr e s) hc).elim
+  · simp only [List.mem_flatMap, List.mem_range, instChecks, List.mem_cons, List.not_mem_nil,
+      or_false] at hc
+    obtain ⟨i, hi, hc⟩ := hc
+    rcases hc with rfl | rfl | rfl | rfl | rfl | rfl | rfl | rfl | rfl
+    · exact absurd hk (by simp [must])
+    · exact absurd hk (by simp [must])
+    · exact Or.inl ⟨i, hi, Or.inl rfl⟩
+    · exact absurd hk (by simp [must])
+    · exact Or.inl ⟨i, hi, Or.inr (Or.inl rfl)⟩
+    · exact Or.inl ⟨i, hi, Or.inr (Or.inr (Or.inl rfl))⟩
+    · exact absurd hk (by simp [must])
+    · exact absurd hk (by simp [must])
+    · exact absurd hk (by simp [must])
+  · exact (no (AllErr.map_must _ _) hc).elim
+  · simp only [List.mem_cons, List.not_mem_nil, or_false] at hc
+    subst hc; exact absurd hk (by simp [must])
+  · simp only [domainChecks, List.mem_map] at hc
+    obtain ⟨db, hdb, rfl⟩ := hc
+    exact Or.inr (Or.inl ⟨db, hdb, rfl⟩)
+  · simp only [quotientDomainChecks, List.mem_map, List.mem_range] at hc
+    obtain ⟨i, hi, rfl⟩ := hc
+    exact Or.inl ⟨i, hi, Or.inr (Or.inr (Or.inr rfl))⟩
+  · exact (no (AllErr.map_must _ _) hc).elim
+  · exact (no (prepRoundChecks_allErr s) hc).elim
+  · exact (no (permRoundChecks_allErr e s) hc).elim
+  · exact (no (friChallengeChecks_allErr e.base s.fri) hc).elim
+  · exact Or.inr (Or.inr (friVerifyChecks_partial_steps e.base s.fri _ c hc hk))
+  · exact (no (batchPost_allErr e s) hc).elim
+
+/-- `BatchPanicGuards` is *exactly* the conditions of `batchPanicGuards_necessary`. -/
+theorem batchPanicGuards_iff (e : BatchEnv) (s : BatchShape) :
+    BatchPanicGuards e s = true ↔
+      (∀ i < e.airs.length, ((e.air i).declares.isSome ∧ (e.air i).logQd.isSome ∧ e.lq i < e.base.wordBits) ∧
+        s.db i + e.lq i ≤ e.base.twoAdicity) ∧
+      (∀ db ∈ s.degreeBits, db ≤ e.base.twoAdicity) ∧
+      sum s.fri.logArities < 2 ^ e.base.wordBits := by
+  constructor
+  · exact batchPanicGuards_necessary e s
+  · rintro ⟨h1, h2, h3⟩
+    apply List.all_eq_true.mpr
+    intro c hc
+    cases hk : c.kind with
+    | err => simp
+    | panic =>
+      simp only [verifyBatchChecks, List.mem_append, List.mem_cons, List.not_mem_nil, or_false] at hc
+      rcases hc with rfl | hc
+      · exact absurd hk (by simp [must])
+      · rcases batchChecks_partial_steps e s c hc hk with ⟨i, hi, hc⟩ | ⟨db, hdb, rfl⟩ | rfl
+        · have g := h1 i hi
+          rcases hc with rfl | rfl | rfl | rfl
+          · simp [partialStep, g.1.1]
+          · simp [partialStep, g.1.2.1]
+          · simp [partialStep, g.1.2.2]
+          · simp [partialStep, g.2]
+        · simp [partialStep, h2 db hdb]
+        · simp [partialStep, h3]
+
+/-- The no-panic theorem of the batch builder with the guard spelled out (stronger than before
+the repairs: nothing about `log_arity`, the caps, `log_max_height`, or shifts by `degree_bits`). -/
+theorem batch_no_panic (e : BatchEnv) (s : BatchShape)
+    (h1 : ∀ i < e.airs.length, ((e.air i).declares.isSome ∧ (e.air i).logQd.isSome ∧ e.lq i < e.base.wordBits) ∧
+      s.db i + e.lq i ≤ e.base.twoAdicity)
+    (h2 : ∀ db ∈ s.degreeBits, db ≤ e.base.twoAdicity)
+    (h3 : sum s.fri.logArities < 2 ^ e.base.wordBits) : verifyBatch e s ≠ .panic :=
+  batch_no_panic_partial e s ((batchPanicGuards_iff e s).mpr ⟨h1, h2, h3⟩)
+
+/-- F9a repaired part, batch builder (ca07f07): once the counts and the per-instance validation loop
+go through, an instance whose `degree_bits + log_qd` does not fit a machine word or exceeds the
+field's bit width makes `verify_batch_circuit` return an error — for every shape (before:
+`1 << degree_bits` overflow / domain-constructor panics). -/
+theorem batch_degree_out_of_range_err (e : BatchEnv) (s : BatchShape)
+    (hpre : run (batchCountChecks e s ++ (List.range e.airs.length).flatMap (instChecks e s)) = .ok)
+    (h : ∃ i < e.airs.length,
+      ¬ (s.db i + e.lq i < e.base.wordBits ∧ s.db i + e.lq i ≤ e.base.valBits)) :
+    run (batchChecks e s) = .err := by
+  unfold batchChecks batchPrefix
+  simp only [List.append_assoc]
+  rw [← List.append_assoc (batchCountChecks e s), run_append, hpre]
+  apply run_err_of_must_prefix
+  · exact AllErr.map_must _ _
+  · obtain ⟨i, hi, hne⟩ := h
+    refine ⟨must (decide (s.db i + e.lq i < e.base.wordBits) && decide (s.db i + e.lq i ≤ e.base.valBits)),
+      ?_, ?_⟩
+    · simp only [degreeRangeChecks, List.mem_map, List.mem_range]
+      exact ⟨i, hi, rfl⟩
+    · cases hx : (decide (s.db i + e.lq i < e.base.wordBits) && decide (s.db i + e.lq i ≤ e.base.valBits))
+      · rfl
+      · simp only [Bool.and_eq_true, decide_eq_true_eq] at hx; exact absurd hx hne
 
 /-- Under the guard hypothesis a shape violating any validated component is rejected with an
 error. -/
@@ -465,30 +615,28 @@ def PrepValidated (_e : BatchEnv) (s : BatchShape) : Prop :=
 /-- The arithmetic side conditions of the STARK layer (the STARK-layer content of
 `BatchPanicGuards`, see `batchPanicGuards_necessary`). -/
 def StarkGuards (e : BatchEnv) (s : BatchShape) : Prop :=
-  (∀ i < e.airs.length, e.lq i < e.base.wordBits ∧ s.db i + e.lq i < e.base.wordBits ∧
-    s.db i + e.lq i ≤ e.base.twoAdicity) ∧
-  (∀ db ∈ s.degreeBits, db < e.base.wordBits ∧ db ≤ e.base.twoAdicity)
+  (∀ i < e.airs.length, e.lq i < e.base.wordBits ∧ s.db i + e.lq i ≤ e.base.twoAdicity) ∧
+  (∀ db ∈ s.degreeBits, db ≤ e.base.twoAdicity)
 
 /-- Converse of `batch_ok_*` ("well-formed shapes are accepted", for every number of instances
 and every shape): if every component the validation covers has its expected value, the arithmetic
-guards hold and the FRI / MMCS part (allocation, challenge checks, `verify_circuit` on the rounds
-the batch builder assembles) goes through, the batch builder accepts. Together with `batch_ok_*`:
+guards hold and the FRI / MMCS part (challenge checks, `verify_circuit` on the rounds
+the batch builder assembles; target allocation has no shape-dependent step since fc0321f) goes through, the batch builder accepts. Together with `batch_ok_*`:
 `verifyBatch e s = .ok` iff the STARK layer is exactly as expected and the PCS part accepts. -/
 theorem batch_wellformed_accepted (e : BatchEnv) (s : BatchShape)
     (hc : CountsValidated e s) (hi : ∀ i < e.airs.length, InstValidated e s i)
     (hl : s.permCap.isSome = true ↔ ∃ l ∈ s.lookups, l ≠ 0) (hp : PrepValidated e s)
     (hg : StarkGuards e s)
-    (hfa : run (allocFri e.base s.fri) = .ok) (hfc : run (friChallengeChecks e.base s.fri) = .ok)
+    (hfc : run (friChallengeChecks e.base s.fri) = .ok)
     (hfv : run (friVerifyChecks e.base s.fri (batchRounds e s)) = .ok) :
     verifyBatch e s = .ok := by
   apply (run_ok_iff _).mpr
   intro c hcm
   simp only [verifyBatchChecks, batchChecks, batchPrefix, List.mem_append] at hcm
-  rcases hcm with (hcm | hcm) | ((((((((((hcm | hcm) | hcm) | hcm) | hcm) | hcm) | hcm) | hcm) | hcm) | hcm) | hcm)
+  rcases hcm with hcm | (((((((((((hcm | hcm) | hcm) | hcm) | hcm) | hcm) | hcm) | hcm) | hcm) | hcm) | hcm) | hcm)
   · simp only [List.mem_cons, List.not_mem_nil, or_false] at hcm
     subst hcm
     simp [must, hc.instances, hc.publicValues]
-  · exact (run_ok_iff _).mp hfa c hcm
   · -- counts
     simp only [batchCountChecks, List.mem_append, List.mem_cons, List.not_mem_nil, or_false] at hcm
     rcases hcm with ((rfl | rfl | rfl) | hcm) | rfl
@@ -526,6 +674,11 @@ theorem batch_wellformed_accepted (e : BatchEnv) (s : BatchShape)
           Option.getD_some]
         exact List.getElem_mem this)
       simp [must, this]
+  · -- degree range (fix ca07f07)
+    simp only [degreeRangeChecks, List.mem_map, List.mem_range] at hcm
+    obtain ⟨i, hi', rfl⟩ := hcm
+    have v := (hi i hi').degree
+    simp [must, v.1, v.2]
   · -- lookup commitment
     simp only [List.mem_cons, List.not_mem_nil, or_false] at hcm
     subst hcm
@@ -540,21 +693,15 @@ theorem batch_wellformed_accepted (e : BatchEnv) (s : BatchShape)
       · have := hl.mpr ⟨l, hlm, hne⟩
         simp [h] at this
   · -- domains
-    simp only [domainChecks, List.mem_flatMap] at hcm
-    obtain ⟨db, hdb, hcm⟩ := hcm
+    simp only [domainChecks, List.mem_map] at hcm
+    obtain ⟨db, hdb, rfl⟩ := hcm
     have g := hg.2 db hdb
-    simp only [List.mem_cons, List.not_mem_nil, or_false] at hcm
-    rcases hcm with rfl | rfl
-    · simp [partialStep, g.1]
-    · simp [partialStep, g.2]
+    simp [partialStep, g]
   · -- quotient domains
-    simp only [quotientDomainChecks, List.mem_flatMap, List.mem_range] at hcm
-    obtain ⟨i, hi', hcm⟩ := hcm
+    simp only [quotientDomainChecks, List.mem_map, List.mem_range] at hcm
+    obtain ⟨i, hi', rfl⟩ := hcm
     have g := hg.1 i hi'
-    simp only [List.mem_cons, List.not_mem_nil, or_false] at hcm
-    rcases hcm with rfl | rfl
-    · simp [partialStep, g.2.1]
-    · simp [partialStep, g.2.2]
+    simp [partialStep, g.2]
   · -- quotient round
     simp only [quotientRoundChecks, List.mem_map, List.mem_range] at hcm
     obtain ⟨i, hi', rfl⟩ := hcm
@@ -599,9 +746,8 @@ theorem p3_ok_verifyBatch (p : P3Env) (e : BatchEnv) (m : MetaShape) (s : BatchS
   apply (run_ok_iff _).mpr
   intro c hc
   simp only [verifyBatchChecks, List.mem_append, List.mem_cons, List.not_mem_nil, or_false] at hc
-  rcases hc with (rfl | hc) | hc
+  rcases hc with rfl | hc
   · exact hall _ (by simp [verifyP3BatchChecks, p3Prefix])
-  · exact hall _ (by simp only [verifyP3BatchChecks, List.mem_append]; exact Or.inl (Or.inr hc))
   · exact hall _ (mem_verifyP3 hc)
 
 /-- What `BatchStarkProof::validate` and the manifest checks pin down. -/
@@ -621,7 +767,7 @@ theorem p3_ok_meta (p : P3Env) (e : BatchEnv) (m : MetaShape) (s : BatchShape)
   have hall := (run_ok_iff _).mp h
   have key : ∀ b : Bool, must b ∈ p3Prefix p m s → b = true := by
     intro b hb
-    have := hall (must b) (by simp only [verifyP3BatchChecks, List.mem_append]; exact Or.inl (Or.inl hb))
+    have := hall (must b) (by simp only [verifyP3BatchChecks, List.mem_append]; exact Or.inl hb)
     simpa [must] using this
   have k1 := key _ (by simp [p3Prefix] : must (m.extDegree == p.traceD) ∈ p3Prefix p m s)
   have k2 := key _ (by simp [p3Prefix] :
@@ -661,20 +807,18 @@ theorem p3PanicGuards_iff (p : P3Env) (e : BatchEnv) (m : MetaShape) (s : BatchS
   constructor
   · intro h
     refine ⟨?_, ?_⟩
-    · have := h (partialStep p.airsBuild) (Or.inl (Or.inl (by simp [p3Prefix])))
+    · have := h (partialStep p.airsBuild) (Or.inl (by simp [p3Prefix]))
       simpa [partialStep] using this
     · intro c hc
-      rcases hc with (hc | hc) | hc
+      rcases hc with hc | hc
       · simp only [List.mem_cons, List.not_mem_nil, or_false] at hc
         subst hc; simp [must]
-      · exact h c (Or.inl (Or.inr hc))
       · exact h c (Or.inr hc)
   · rintro ⟨ha, hb⟩ c hc
-    rcases hc with (hc | hc) | hc
+    rcases hc with hc | hc
     · simp only [p3Prefix, List.mem_cons, List.not_mem_nil, or_false] at hc
       rcases hc with rfl | rfl | rfl | rfl | rfl | rfl | rfl | rfl | rfl | rfl | rfl | rfl | rfl <;>
         simp [must, partialStep, ha]
-    · exact hb c (Or.inl (Or.inr hc))
     · exact hb c (Or.inr hc)
 
 /-! ## Repaired findings F9j / F9k / F9l (fix C15-2): proved for every shape -/
@@ -707,7 +851,7 @@ theorem p3_instances_mismatch_err (p : P3Env) (e : BatchEnv) (m : MetaShape) (s 
     (h : s.instances.length ≠ s.publicValues) :
     verifyP3Batch p e m s = .err ∨ (verifyP3Batch p e m s = .panic ∧ p.airsBuild = false) := by
   unfold verifyP3Batch verifyP3BatchChecks
-  rw [List.append_assoc, run_append]
+  rw [run_append]
   have hf : (s.instances.length == s.publicValues) = false := by simpa using h
   cases hp : run (p3Prefix p m s) with
   | ok =>
@@ -739,7 +883,7 @@ def p3_batch : P3Env := { traceD := 1, numProvers := 0, airsBuild := true, npoEn
 def meta_batch : MetaShape := { extDegree := 1, rows := [2, 2, 4], publicLanes := 1, aluLanes := 2, npoLanes := [], minTraceHeight := 1, hornerSteps := 2, nonPrimLanes := [] }
 
 def honest_batch : BatchShape :=
-  { traceCap := 1, quotientCap := 1, randomCap := none, permCap := some 1, instances := [{ traceLocal := 1, traceNext := 0, prepLocal := some 2, prepNext := some 2, quotientChunks := [4], random := none, permLocal := 8, permNext := 8 }, { traceLocal := 1, traceNext := 0, prepLocal := some 2, prepNext := some 2, quotientChunks := [4], random := none, permLocal := 8, permNext := 8 }, { traceLocal := 11, traceNext := 11, prepLocal := some 33, prepNext := some 33, quotientChunks := [4, 4], random := none, permLocal := 24, permNext := 24 }], degreeBits := [1, 1, 1], terminals := [true, true, true], publicValues := 3, lookups := [1, 1, 5], prep := some ({ cap := 1, instances := [some { matrixIndex := 0, width := 2, degreeBits := 1 }, some { matrixIndex := 1, width := 2, degreeBits := 1 }, some { matrixIndex := 2, width := 33, degreeBits := 1 }], matrixToInstance := [0, 1, 2] }), fri := { commitCaps := [1], powWitnesses := 1, queries := [{ inputProof := [[1, 1, 11], [4, 4, 4, 4], [2, 2, 33], [8, 8, 24]], steps := [1] }, { inputProof := [[1, 1, 11], [4, 4, 4, 4], [2, 2, 33], [8, 8, 24]], steps := [1] }], finalPolyLen := 1 } }
+  { traceCap := 1, quotientCap := 1, randomCap := none, permCap := some 1, instances := [{ traceLocal := 1, traceNext := 0, prepLocal := some 2, prepNext := some 2, quotientChunks := [4], random := none, permLocal := 8, permNext := 8 }, { traceLocal := 1, traceNext := 0, prepLocal := some 2, prepNext := some 2, quotientChunks := [4], random := none, permLocal := 8, permNext := 8 }, { traceLocal := 11, traceNext := 11, prepLocal := some 33, prepNext := some 33, quotientChunks := [4, 4], random := none, permLocal := 24, permNext := 24 }], degreeBits := [1, 1, 1], terminals := [true, true, true], publicValues := 3, lookups := [1, 1, 5], prep := some ({ cap := 1, instances := [some { matrixIndex := 0, width := 2, degreeBits := 1 }, some { matrixIndex := 1, width := 2, degreeBits := 1 }, some { matrixIndex := 2, width := 33, degreeBits := 1 }], matrixToInstance := [0, 1, 2] }), fri := { commitCaps := [1], powWitnesses := 1, queries := [{ inputProof := [[1, 1, 11], [4, 4, 4, 4], [2, 2, 33], [8, 8, 24]], steps := [1], siblings := [1] }, { inputProof := [[1, 1, 11], [4, 4, 4, 4], [2, 2, 33], [8, 8, 24]], steps := [1], siblings := [1] }], finalPolyLen := 1 } }
 
 def env_batch_h : BatchEnv :=
   { base := { airWidth := 0, airPrepWidth := 0, logQd := 0, dim := 4, prepCommit := none, logBlowup := 2, logFinalPolyLen := 0, commitPowBits := 1, queryPowBits := 1, mmcs := true, valBits := 31, twoAdicity := 27, wordBits := 64, maxAlloc := 67108864 },
@@ -750,28 +894,28 @@ def p3_batch_h : P3Env := { traceD := 1, numProvers := 0, airsBuild := true, npo
 def meta_batch_h : MetaShape := { extDegree := 1, rows := [2, 2, 46], publicLanes := 1, aluLanes := 2, npoLanes := [], minTraceHeight := 1, hornerSteps := 2, nonPrimLanes := [] }
 
 def honest_batch_h : BatchShape :=
-  { traceCap := 1, quotientCap := 1, randomCap := none, permCap := some 1, instances := [{ traceLocal := 1, traceNext := 0, prepLocal := some 2, prepNext := some 2, quotientChunks := [4], random := none, permLocal := 8, permNext := 8 }, { traceLocal := 1, traceNext := 0, prepLocal := some 2, prepNext := some 2, quotientChunks := [4], random := none, permLocal := 8, permNext := 8 }, { traceLocal := 11, traceNext := 11, prepLocal := some 33, prepNext := some 33, quotientChunks := [4, 4], random := none, permLocal := 24, permNext := 24 }], degreeBits := [1, 1, 5], terminals := [true, true, true], publicValues := 3, lookups := [1, 1, 5], prep := some ({ cap := 1, instances := [some { matrixIndex := 0, width := 2, degreeBits := 1 }, some { matrixIndex := 1, width := 2, degreeBits := 1 }, some { matrixIndex := 2, width := 33, degreeBits := 5 }], matrixToInstance := [0, 1, 2] }), fri := { commitCaps := [1, 1, 1, 1, 1], powWitnesses := 5, queries := [{ inputProof := [[1, 1, 11], [4, 4, 4, 4], [2, 2, 33], [8, 8, 24]], steps := [1, 1, 1, 1, 1] }, { inputProof := [[1, 1, 11], [4, 4, 4, 4], [2, 2, 33], [8, 8, 24]], steps := [1, 1, 1, 1, 1] }], finalPolyLen := 1 } }
+  { traceCap := 1, quotientCap := 1, randomCap := none, permCap := some 1, instances := [{ traceLocal := 1, traceNext := 0, prepLocal := some 2, prepNext := some 2, quotientChunks := [4], random := none, permLocal := 8, permNext := 8 }, { traceLocal := 1, traceNext := 0, prepLocal := some 2, prepNext := some 2, quotientChunks := [4], random := none, permLocal := 8, permNext := 8 }, { traceLocal := 11, traceNext := 11, prepLocal := some 33, prepNext := some 33, quotientChunks := [4, 4], random := none, permLocal := 24, permNext := 24 }], degreeBits := [1, 1, 5], terminals := [true, true, true], publicValues := 3, lookups := [1, 1, 5], prep := some ({ cap := 1, instances := [some { matrixIndex := 0, width := 2, degreeBits := 1 }, some { matrixIndex := 1, width := 2, degreeBits := 1 }, some { matrixIndex := 2, width := 33, degreeBits := 5 }], matrixToInstance := [0, 1, 2] }), fri := { commitCaps := [1, 1, 1, 1, 1], powWitnesses := 5, queries := [{ inputProof := [[1, 1, 11], [4, 4, 4, 4], [2, 2, 33], [8, 8, 24]], steps := [1, 1, 1, 1, 1], siblings := [1, 1, 1, 1, 1] }, { inputProof := [[1, 1, 11], [4, 4, 4, 4], [2, 2, 33], [8, 8, 24]], steps := [1, 1, 1, 1, 1], siblings := [1, 1, 1, 1, 1] }], finalPolyLen := 1 } }
 
 def env_gbatch_1 : BatchEnv :=
   { base := { airWidth := 0, airPrepWidth := 0, logQd := 0, dim := 4, prepCommit := none, logBlowup := 2, logFinalPolyLen := 0, commitPowBits := 1, queryPowBits := 1, mmcs := true, valBits := 31, twoAdicity := 27, wordBits := 64, maxAlloc := 67108864 },
     airs := [{ width := 2, opensNext := true, declares := some false, logQd := some 0 }] }
 
 def honest_gbatch_1 : BatchShape :=
-  { traceCap := 1, quotientCap := 1, randomCap := none, permCap := none, instances := [{ traceLocal := 2, traceNext := 2, prepLocal := none, prepNext := none, quotientChunks := [4], random := none, permLocal := 0, permNext := 0 }], degreeBits := [3], terminals := [false], publicValues := 1, lookups := [0], prep := none, fri := { commitCaps := [1, 1, 1], powWitnesses := 3, queries := [{ inputProof := [[2], [4]], steps := [1, 1, 1] }, { inputProof := [[2], [4]], steps := [1, 1, 1] }], finalPolyLen := 1 } }
+  { traceCap := 1, quotientCap := 1, randomCap := none, permCap := none, instances := [{ traceLocal := 2, traceNext := 2, prepLocal := none, prepNext := none, quotientChunks := [4], random := none, permLocal := 0, permNext := 0 }], degreeBits := [3], terminals := [false], publicValues := 1, lookups := [0], prep := none, fri := { commitCaps := [1, 1, 1], powWitnesses := 3, queries := [{ inputProof := [[2], [4]], steps := [1, 1, 1], siblings := [1, 1, 1] }, { inputProof := [[2], [4]], steps := [1, 1, 1], siblings := [1, 1, 1] }], finalPolyLen := 1 } }
 
 def env_gbatch_2 : BatchEnv :=
   { base := { airWidth := 0, airPrepWidth := 0, logQd := 0, dim := 4, prepCommit := none, logBlowup := 2, logFinalPolyLen := 0, commitPowBits := 1, queryPowBits := 1, mmcs := true, valBits := 31, twoAdicity := 27, wordBits := 64, maxAlloc := 67108864 },
     airs := [{ width := 2, opensNext := true, declares := some false, logQd := some 1 }, { width := 3, opensNext := false, declares := some false, logQd := some 0 }] }
 
 def honest_gbatch_2 : BatchShape :=
-  { traceCap := 1, quotientCap := 1, randomCap := none, permCap := none, instances := [{ traceLocal := 2, traceNext := 2, prepLocal := some 4, prepNext := some 4, quotientChunks := [4, 4], random := none, permLocal := 0, permNext := 0 }, { traceLocal := 3, traceNext := 0, prepLocal := none, prepNext := none, quotientChunks := [4], random := none, permLocal := 0, permNext := 0 }], degreeBits := [3, 4], terminals := [false, false], publicValues := 2, lookups := [0, 0], prep := some ({ cap := 1, instances := [some { matrixIndex := 0, width := 4, degreeBits := 3 }, none], matrixToInstance := [0] }), fri := { commitCaps := [1, 1, 1, 1], powWitnesses := 4, queries := [{ inputProof := [[2, 3], [4, 4, 4], [4]], steps := [1, 1, 1, 1] }, { inputProof := [[2, 3], [4, 4, 4], [4]], steps := [1, 1, 1, 1] }], finalPolyLen := 1 } }
+  { traceCap := 1, quotientCap := 1, randomCap := none, permCap := none, instances := [{ traceLocal := 2, traceNext := 2, prepLocal := some 4, prepNext := some 4, quotientChunks := [4, 4], random := none, permLocal := 0, permNext := 0 }, { traceLocal := 3, traceNext := 0, prepLocal := none, prepNext := none, quotientChunks := [4], random := none, permLocal := 0, permNext := 0 }], degreeBits := [3, 4], terminals := [false, false], publicValues := 2, lookups := [0, 0], prep := some ({ cap := 1, instances := [some { matrixIndex := 0, width := 4, degreeBits := 3 }, none], matrixToInstance := [0] }), fri := { commitCaps := [1, 1, 1, 1], powWitnesses := 4, queries := [{ inputProof := [[2, 3], [4, 4, 4], [4]], steps := [1, 1, 1, 1], siblings := [1, 1, 1, 1] }, { inputProof := [[2, 3], [4, 4, 4], [4]], steps := [1, 1, 1, 1], siblings := [1, 1, 1, 1] }], finalPolyLen := 1 } }
 
 def env_gbatch_4 : BatchEnv :=
   { base := { airWidth := 0, airPrepWidth := 0, logQd := 0, dim := 4, prepCommit := none, logBlowup := 2, logFinalPolyLen := 0, commitPowBits := 1, queryPowBits := 1, mmcs := true, valBits := 31, twoAdicity := 27, wordBits := 64, maxAlloc := 67108864 },
     airs := [{ width := 3, opensNext := false, declares := some false, logQd := some 0 }, { width := 2, opensNext := true, declares := some false, logQd := some 1 }, { width := 2, opensNext := true, declares := some false, logQd := some 0 }, { width := 2, opensNext := true, declares := some false, logQd := some 1 }] }
 
 def honest_gbatch_4 : BatchShape :=
-  { traceCap := 1, quotientCap := 1, randomCap := none, permCap := none, instances := [{ traceLocal := 3, traceNext := 0, prepLocal := none, prepNext := none, quotientChunks := [4], random := none, permLocal := 0, permNext := 0 }, { traceLocal := 2, traceNext := 2, prepLocal := some 4, prepNext := some 4, quotientChunks := [4, 4], random := none, permLocal := 0, permNext := 0 }, { traceLocal := 2, traceNext := 2, prepLocal := none, prepNext := none, quotientChunks := [4], random := none, permLocal := 0, permNext := 0 }, { traceLocal := 2, traceNext := 2, prepLocal := some 4, prepNext := some 4, quotientChunks := [4, 4], random := none, permLocal := 0, permNext := 0 }], degreeBits := [3, 4, 3, 3], terminals := [false, false, false, false], publicValues := 4, lookups := [0, 0, 0, 0], prep := some ({ cap := 1, instances := [none, some { matrixIndex := 0, width := 4, degreeBits := 4 }, none, some { matrixIndex := 1, width := 4, degreeBits := 3 }], matrixToInstance := [1, 3] }), fri := { commitCaps := [1, 1, 1, 1], powWitnesses := 4, queries := [{ inputProof := [[3, 2, 2, 2], [4, 4, 4, 4, 4, 4], [4, 4]], steps := [1, 1, 1, 1] }, { inputProof := [[3, 2, 2, 2], [4, 4, 4, 4, 4, 4], [4, 4]], steps := [1, 1, 1, 1] }], finalPolyLen := 1 } }
+  { traceCap := 1, quotientCap := 1, randomCap := none, permCap := none, instances := [{ traceLocal := 3, traceNext := 0, prepLocal := none, prepNext := none, quotientChunks := [4], random := none, permLocal := 0, permNext := 0 }, { traceLocal := 2, traceNext := 2, prepLocal := some 4, prepNext := some 4, quotientChunks := [4, 4], random := none, permLocal := 0, permNext := 0 }, { traceLocal := 2, traceNext := 2, prepLocal := none, prepNext := none, quotientChunks := [4], random := none, permLocal := 0, permNext := 0 }, { traceLocal := 2, traceNext := 2, prepLocal := some 4, prepNext := some 4, quotientChunks := [4, 4], random := none, permLocal := 0, permNext := 0 }], degreeBits := [3, 4, 3, 3], terminals := [false, false, false, false], publicValues := 4, lookups := [0, 0, 0, 0], prep := some ({ cap := 1, instances := [none, some { matrixIndex := 0, width := 4, degreeBits := 4 }, none, some { matrixIndex := 1, width := 4, degreeBits := 3 }], matrixToInstance := [1, 3] }), fri := { commitCaps := [1, 1, 1, 1], powWitnesses := 4, queries := [{ inputProof := [[3, 2, 2, 2], [4, 4, 4, 4, 4, 4], [4, 4]], steps := [1, 1, 1, 1], siblings := [1, 1, 1, 1] }, { inputProof := [[3, 2, 2, 2], [4, 4, 4, 4, 4, 4], [4, 4]], steps := [1, 1, 1, 1], siblings := [1, 1, 1, 1] }], finalPolyLen := 1 } }
 
 
 theorem honest_batch_shapes_ok :
@@ -806,3 +950,7 @@ end P3R.C15Batch
 #print axioms P3R.C15Batch.honest_batch_shapes_ok
 #print axioms P3R.C15Batch.allHold_of_verifyBatch
 #print axioms P3R.C15Batch.allHold_of_verifyP3
+#print axioms P3R.C15Batch.batchChecks_partial_steps
+#print axioms P3R.C15Batch.batchPanicGuards_iff
+#print axioms P3R.C15Batch.batch_no_panic
+#print axioms P3R.C15Batch.batch_degree_out_of_range_err
